@@ -502,8 +502,16 @@ func runPool(c *poolCase) (string, string) {
 			runs[i].Add(1)
 			ran.Add(1)
 			vkit.Yield(c.Yields[i%len(c.Yields)])
-			if c.Jobs[i] == "panic" {
+			switch c.Jobs[i] {
+			case "panic":
 				panic(fmt.Sprintf("job %d panics", i))
+			case "panic-eof":
+				// a panic is a panic, whatever its value wraps (e.g.
+				// fun.Invariant.Must(closedQueue.Add(x)): ErrQueueClosed
+				// wraps io.EOF)
+				panic(fmt.Errorf("job %d: invariant violated: %w", i, io.EOF))
+			case "panic-ctx":
+				panic(fmt.Errorf("job %d: invariant violated: %w", i, context.Canceled))
 			}
 			return jerr[i]
 		}
@@ -639,9 +647,9 @@ func runPool(c *poolCase) (string, string) {
 			if !errors.Is(werr, jerr[i]) && !seen {
 				return "error-lost", fmt.Sprintf("%s: the error of job %d is neither in Wait's result (%v) nor was it seen by the handler", c.Kind, i, werr)
 			}
-		case "panic":
+		case "panic", "panic-eof", "panic-ctx":
 			if !errors.Is(werr, fun.ErrRecoveredPanic) {
-				return "error-lost", fmt.Sprintf("%s: job %d panicked but Wait returned %v", c.Kind, i, werr)
+				return "error-lost", fmt.Sprintf("%s: job %d panicked (%s) but Wait returned %v", c.Kind, i, c.Jobs[i], werr)
 			}
 		}
 	}
@@ -669,7 +677,7 @@ func TestPools(t *testing.T) {
 			Kind:      rapid.SampledFrom([]string{"WorkerPool", "HandlerWorkerPool", "Cleanup", "Cleanup"}).Draw(t, "kind"),
 			Workers:   rapid.IntRange(1, 5).Draw(t, "workers"),
 			Producers: rapid.IntRange(1, 4).Draw(t, "producers"),
-			Jobs:      rapid.SliceOfN(rapid.SampledFrom([]string{"ok", "ok", "ok", "error", "error", "panic", "panic", "ctx-error", "eof-error"}), 0, 60).Draw(t, "jobs"),
+			Jobs:      rapid.SliceOfN(rapid.SampledFrom([]string{"ok", "ok", "ok", "error", "error", "panic", "panic", "panic-eof", "panic-ctx", "ctx-error", "eof-error"}), 0, 60).Draw(t, "jobs"),
 			Ending:    rapid.SampledFrom([]string{"close", "cancel"}).Draw(t, "ending"),
 			Yields:    rapid.SliceOfN(rapid.IntRange(0, 3), 1, 5).Draw(t, "yields"),
 			Procs:     rapid.SampledFrom([]int{1, 2, 4, 16}).Draw(t, "gomaxprocs"),
